@@ -1,9 +1,11 @@
 /-
-Helper lemmas for the end-to-end publish theorem (C01c).
+Helper lemmas for the end-to-end publish theorem (C01c).  Split over
+* `PublishStore`  — `begin` / `batchInsert` / `commit` preserve what the tree code reads;
+* `PublishTable`  — the specification's version table and its leaf set;
+* `PublishDerive` — `stateLeq`, `deriveUpdates`, `setState` against the version table;
+* `PublishStep`   — one effective batch: the new table, its invariants, the new value states;
+* `PublishHonest` — which leaves sit at which VRF labels of the specification's leaf set.
 -/
-import AkdModel.Dir
-import AkdModel.Spec
-import AkdModel.Thm.C01b
-import AkdModel.Thm.C06
-namespace Akd
-end Akd
+import AkdModel.Lemmas.PublishStore
+import AkdModel.Lemmas.PublishStep
+import AkdModel.Lemmas.PublishHonest
